@@ -69,7 +69,7 @@ class C18(Check):
                       "static server (SimHTTP)", "process boundary "
                       "(fresh accessor objects, dead-epoch handles)"],
     }
-    tiers = {"quick": dict(runs=640, budget=75, batch=4, recheck_every=40),
+    tiers = {"quick": dict(runs=400, budget=75, batch=4, recheck_every=40),
              "thorough": dict(runs=12000, budget=900, batch=4,
                               recheck_every=200)}
     expected_probes = ["crash_in_shard_data", "crash_before_shard_index",
@@ -118,10 +118,10 @@ class C18(Check):
                              "store_file_overwrite", "read_chunk",
                              "fetch_file", "file_exists", "file_exists_absent",
                              "read_absent", "store_chunk_noow_existing",
-                             "store_file_noow_existing"])
+                             "store_file_noow_existing", "pyramid"])
         elif kind == "sharded":
             op = rng.choice(["session", "session", "session", "read_chunk",
-                             "read_all"])
+                             "read_all", "pyramid"])
         else:
             op = rng.choice(["http_fetch_chunk", "http_fetch_chunk",
                              "http_fetch_absent", "http_fetch_info",
@@ -132,6 +132,11 @@ class C18(Check):
                                     "precomputed://https://sim.test/ds"])
             if kind == "http":
                 sc["flat"] = rng.random() < 0.6    # deep => nginx rules
+        if op == "pyramid":
+            # the pyramid code needs new chunk = 1 or 2 half-chunks
+            sc["cs"] = rng.choice([2, 4, 8])
+            sc["size"] = [rng.randint(sc["cs"] + 1, 2 * sc["cs"] + 2)
+                          for _ in range(3)]
         opd = {"name": op, "ci": rng.randrange(64),
                "order_seed": rng.randrange(1 << 30),
                "via_url": rng.random() < 0.5}
@@ -197,6 +202,7 @@ class C18(Check):
         from neuroglancer_scripts.accessor import get_accessor_for_url
         from neuroglancer_scripts.sharded_file_accessor import (
             ShardedFileAccessor)
+        import numpy as np
         name = opd["name"]
         s0, s1 = info["scales"]
         grid0 = dsutil.chunk_grid(s0["size"], s0["chunk_sizes"][0])
@@ -285,6 +291,29 @@ class C18(Check):
             return dict(label=name, run=run, target=("file", fname),
                         is_store=False, expect=(name == "file_exists"),
                         is_probe=True)
+        if name == "pyramid":
+            # the second level computed from the first by the real driver:
+            # many reads of stored chunks interleaved with writes (and, for
+            # sharded storage, the close() between levels)
+            from neuroglancer_scripts import downscaling, dyadic_pyramid
+            ds = downscaling.get_downscaler("stride")
+            want = {}
+            big = np.zeros((sc["nchan"],) + tuple(reversed(s0["size"])),
+                           dtype=np.dtype(sc["dtype"]))
+            for co in grid0:
+                big[:, co[4]:co[5], co[2]:co[3], co[0]:co[1]] = model[
+                    ("s0", co)]
+            small = ds.downscale(big, [1 if a == b else 2 for a, b in
+                                       zip(s0["size"], s1["size"])])
+            for co in grid1:
+                want[co] = np.ascontiguousarray(
+                    small[:, co[4]:co[5], co[2]:co[3], co[0]:co[1]])
+
+            def run():
+                acc, pio = open_pio()
+                dyadic_pyramid.compute_dyadic_scales(pio, ds)
+            return dict(label=name, run=run, target=("scale", "s1"),
+                        new=want, is_store=True)
         if name == "session":
             import random
             order = list(range(len(grid1)))
@@ -391,7 +420,16 @@ class C18(Check):
         plans = []
         faults = trace["faults"]
         if faults == "enum":
-            for (k, kind, path, site, _d) in calls:
+            enum_calls = calls
+            if len(calls) > 40 and op["label"] == "pyramid":
+                # long operations: a deterministic spread of 40 call sites
+                # (first and last 8 always, the rest evenly)
+                mid = calls[8:-8]
+                step = len(mid) / 24.0
+                enum_calls = calls[:8] + [mid[int(j * step)]
+                                          for j in range(24)] + calls[-8:]
+                res.probe("long_operation_sampled")
+            for (k, kind, path, site, _d) in enum_calls:
                 for e in PLAUSIBLE.get(kind, []):
                     plans.append([[k, ["errno", e]]])
                 plans.append([[k, ["crash_before"]]])
@@ -503,7 +541,8 @@ class C18(Check):
                 # ---------- what a fresh process finds ----------------------
                 after = dsutil.read_dataset(
                     DS, info, which=sorted(model) + (
-                        s1_items if op["label"] in ("write_new", "session")
+                        s1_items if op["label"] in ("write_new", "session",
+                                                    "pyramid")
                         else []))
                 tgt = op["target"]
                 for item, want in sorted(model.items(),
